@@ -70,17 +70,17 @@ type obsSample struct {
 	ErrS  string `json:"errs,omitempty"`
 }
 
-type recAggregator struct {
+type scnRecAggregator struct {
 	mu      sync.Mutex
 	samples []obsSample
 }
 
-func (a *recAggregator) Run(ctx context.Context, _ core.AggregatorDeps) error {
+func (a *scnRecAggregator) Run(ctx context.Context, _ core.AggregatorDeps) error {
 	<-ctx.Done()
 	return nil
 }
 
-func (a *recAggregator) Report(s core.Sample) {
+func (a *scnRecAggregator) Report(s core.Sample) {
 	ns, ok := s.(*netsample.Sample)
 	if !ok {
 		panic(fmt.Sprintf("unexpected sample type %T", s))
@@ -108,7 +108,7 @@ func (a *recAggregator) Report(s core.Sample) {
 	a.mu.Unlock()
 }
 
-func (a *recAggregator) Samples() []obsSample {
+func (a *scnRecAggregator) Samples() []obsSample {
 	a.mu.Lock()
 	defer a.mu.Unlock()
 	return append([]obsSample{}, a.samples...)
@@ -458,7 +458,7 @@ func runCase(c map[string]interface{}, tgt *scentarget.Target, root string, hcl 
 		obs.BuildErr = err.Error()
 		return obs
 	}
-	agg := &recAggregator{}
+	agg := &scnRecAggregator{}
 	obs.RunErr = scnRunEngine(conf, agg, 120*time.Second)
 	obs.Log = tgt.Log()
 	obs.Samples = agg.Samples()
